@@ -120,18 +120,9 @@ func init() {
 				}
 				fc := c.cfgOf(s.Unit, s.Lit)
 				good := false
-				for _, b := range fc.condBlocks(func(e ast.Expr) bool { is, _ := isNilTest(info, e, obj); return is }) {
-					_, trueNonNil := isNilTest(info, fc.CondOf(b), obj)
-					k := 0
-					if !trueNonNil {
-						k = 1
-					}
-					// first node on the non-nil edge must be `return obj`
-					succ := b.Succs[k]
-					if len(succ.Nodes) > 0 {
-						if rs, ok := succ.Nodes[0].(*ast.ReturnStmt); ok && len(rs.Results) == 1 && identObj(info, rs.Results[0]) == obj {
-							good = true
-						}
+				for _, e := range fc.nilEdges(obj, false) {
+					if fc.edgeReturns(e, obj) {
+						good = true
 					}
 				}
 				if good {
@@ -168,19 +159,11 @@ func init() {
 			if errObj == nil {
 				return []Obligation{mkOb(c, "HEIGHT.push-check", u, "call checkHeightPush", calls[0].Call, Violated, "height check result not bound to a variable", true)}
 			}
-			var cut []cfgEdge
+			cut := fc.nilEdges(errObj, true)
 			retOK := false
-			for _, b := range fc.condBlocks(func(e ast.Expr) bool { is, _ := isNilTest(info, e, errObj); return is }) {
-				_, trueNonNil := isNilTest(info, fc.CondOf(b), errObj)
-				nilEdge, errEdge := 1, 0
-				if !trueNonNil {
-					nilEdge, errEdge = 0, 1
-				}
-				cut = append(cut, cfgEdge{b, nilEdge})
-				if succ := b.Succs[errEdge]; len(succ.Nodes) > 0 {
-					if rs, ok := succ.Nodes[0].(*ast.ReturnStmt); ok && len(rs.Results) == 1 && identObj(info, rs.Results[0]) == errObj {
-						retOK = true
-					}
+			for _, e := range fc.nilEdges(errObj, false) {
+				if fc.edgeReturns(e, errObj) {
+					retOK = true
 				}
 			}
 			n := 0
@@ -223,16 +206,9 @@ func init() {
 			if len(calls) == 1 {
 				if as, isAs := fc.Node(calls[0].Loc).(*ast.AssignStmt); isAs && len(as.Lhs) == 1 {
 					errObj := identObj(info, as.Lhs[0])
-					for _, b := range fc.condBlocks(func(e ast.Expr) bool { is, _ := isNilTest(info, e, errObj); return is }) {
-						_, trueNonNil := isNilTest(info, fc.CondOf(b), errObj)
-						k := 0
-						if !trueNonNil {
-							k = 1
-						}
-						if succ := b.Succs[k]; len(succ.Nodes) > 0 {
-							if rs, isRet := succ.Nodes[0].(*ast.ReturnStmt); isRet && len(rs.Results) == 1 && identObj(info, rs.Results[0]) == errObj {
-								ok = true
-							}
+					for _, e := range fc.nilEdges(errObj, false) {
+						if fc.edgeReturns(e, errObj) {
+							ok = true
 						}
 					}
 				} else if rs, isRet := fc.Node(calls[0].Loc).(*ast.ReturnStmt); isRet && len(rs.Results) == 1 {
@@ -318,21 +294,26 @@ func init() {
 			u := FuncUnit{fn, fd, pkg}
 			info := pkg.TypesInfo
 			fc := c.cfgOf(u, nil)
-			var guard *cfg.Block
-			for _, b := range fc.condBlocks(func(e ast.Expr) bool { return nodeCalls(info, e, exc) != nil }) {
-				guard = b
+			isExc := func(a LitAtom) bool {
+				ce, ok := ast.Unparen(a.E).(*ast.CallExpr)
+				return ok && originOf(Callee(info, ce)) == exc
 			}
+			notExceeded := fc.edgesImplying(func(a LitAtom) bool { return isExc(a) && !a.Positive })
+			exceeded := fc.edgesImplying(func(a LitAtom) bool { return isExc(a) && a.Positive })
 			var obs []Obligation
-			if guard == nil {
-				return []Obligation{mkOb(c, "HEIGHT.nesting-check", u, "nesting guard", fd, Violated, "eval no longer tests evalNestingExceeded()", true)}
+			if len(notExceeded) == 0 || len(exceeded) == 0 {
+				return []Obligation{mkOb(c, "HEIGHT.nesting-check", u, "nesting guard", fd, Violated, "eval no longer branches on evalNestingExceeded()", true)}
 			}
-			// true edge must return
-			if succ := guard.Succs[0]; len(succ.Nodes) == 0 {
-				obs = append(obs, mkOb(c, "HEIGHT.nesting-check", u, "nesting guard returns", fd, Violated, "exceeded edge does not return", true))
-			} else if _, ok := succ.Nodes[len(succ.Nodes)-1].(*ast.ReturnStmt); !ok {
-				obs = append(obs, mkOb(c, "HEIGHT.nesting-check", u, "nesting guard returns", fd, Violated, "exceeded edge does not return an error", true))
+			retOK := true
+			for _, e := range exceeded {
+				if !fc.edgeReturns(e, nil) {
+					retOK = false
+				}
+			}
+			if retOK {
+				obs = append(obs, mkOb(c, "HEIGHT.nesting-check", u, "nesting guard returns", exceeded[0].B.Nodes[len(exceeded[0].B.Nodes)-1], Proved, "exceeded edge returns", true))
 			} else {
-				obs = append(obs, mkOb(c, "HEIGHT.nesting-check", u, "nesting guard returns", succ.Nodes[0], Proved, "exceeded edge returns", true))
+				obs = append(obs, mkOb(c, "HEIGHT.nesting-check", u, "nesting guard returns", fd, Violated, "exceeded edge does not return an error", true))
 			}
 			// every call to a function that can statically reach eval must pass the false edge
 			reach := c.staticReach(func(p string) bool { return rel(p) == "lisp" }, fn)
@@ -349,7 +330,7 @@ func init() {
 							continue
 						}
 						construct := ord.next("call " + callee.Name())
-						if !fc.reachableAvoiding(b, []cfgEdge{{guard, 1}}) {
+						if !fc.reachableAvoiding(b, notExceeded) {
 							obs = append(obs, mkOb(c, "HEIGHT.nesting-check", u, construct, ce, Proved, "reachable only through the not-exceeded edge of the nesting guard", true))
 						} else {
 							obs = append(obs, mkOb(c, "HEIGHT.nesting-check", u, construct, ce, Violated, "recursion into the evaluator without passing the nesting guard", true))
